@@ -43,13 +43,39 @@ fn fixtures(n: usize) -> Fix {
     }
 }
 
-pub const BDD_QUERIES: [&str; 16] = [
+#[derive(Clone, Debug)]
+pub enum Q {
+    Fixed(usize),
+    Cond(usize, bool),
+    Exists(usize),
+    CondModel(usize),
+}
+
+const FIXED: [&str; 13] = [
     "wmc<Real>", "wmc<FF32>", "wmc<FF64>", "evaluate", "wmc<EU>", "count_nodes", "semantic_hash<FF32>", "cached_semantic_hash<FF64>",
-    "marginal_map", "meu", "bb<Real>", "smooth", "condition", "condition_model", "bb<EU>", "exists",
+    "marginal_map", "meu", "bb<Real>", "smooth", "bb<EU>",
 ];
 
-fn bdd_pool<'a>(b: &'a AllBuilder<'a>, f: TT, g: TT, n: usize) -> Vec<BddPtr<'a>> {
+/// the query alphabet for n variables: 13 fixed kinds + condition on every literal + exists on
+/// every variable + three partial models
+pub fn bdd_queries(n: usize) -> Vec<(String, Q)> {
+    let mut v: Vec<(String, Q)> = FIXED.iter().enumerate().map(|(i, s)| (s.to_string(), Q::Fixed(i))).collect();
+    for x in 0..n {
+        v.push((format!("condition(x{}=true)", x), Q::Cond(x, true)));
+        v.push((format!("condition(x{}=false)", x), Q::Cond(x, false)));
+        v.push((format!("exists(x{})", x), Q::Exists(x)));
+    }
+    for m in 0..3 {
+        v.push((format!("condition_model#{}", m), Q::CondModel(m)));
+    }
+    v
+}
+
+fn bdd_pool<'a>(b: &'a AllBuilder<'a>, f: TT, g: TT, n: usize, kind: u8) -> Vec<BddPtr<'a>> {
     let pf = build_bdd(b, f, n);
+    if kind == 1 {
+        return vec![pf];
+    }
     let pg = build_bdd(b, g, n);
     let sub = match pf {
         BddPtr::Reg(nd) | BddPtr::Compl(nd) => {
@@ -61,6 +87,9 @@ fn bdd_pool<'a>(b: &'a AllBuilder<'a>, f: TT, g: TT, n: usize) -> Vec<BddPtr<'a>
         }
         _ => pf,
     };
+    if kind == 2 {
+        return vec![pf, pf.neg(), sub];
+    }
     vec![pf, pf.neg(), sub, b.and(pf, pg), pg, b.smooth(pf, n), b.or(pf.neg(), pg)]
 }
 
@@ -79,67 +108,84 @@ fn digest_bdd(p: BddPtr, n: usize) -> String {
     format!("tt={:#x} root={} nodes={:?}", bdd_tt(p, n), r, t)
 }
 
-fn bdd_query<'a>(b: &'a AllBuilder<'a>, p: BddPtr<'a>, q: usize, fx: &Fix) -> Result<String, String> {
+fn bdd_query<'a>(b: &'a AllBuilder<'a>, p: BddPtr<'a>, q: &Q, fx: &Fix) -> Result<String, String> {
     let n = fx.n;
     let vars: Vec<VarLabel> = vec![VarLabel::new((n - 1) as u64), VarLabel::new(0)];
     guarded(|| match q {
-        0 => format!("{:?}", p.unsmoothed_wmc(&fx.real).0.to_bits()),
-        1 => format!("{}", p.unsmoothed_wmc(&fx.ff1).value()),
-        2 => format!("{}", p.unsmoothed_wmc(&fx.ff2).value()),
-        3 => (0..(1usize << n)).map(|a| if p.evaluate(&tt::assignment_vec(a, n)) { '1' } else { '0' }).collect::<String>(),
-        4 => {
+        Q::Fixed(0) => format!("{:?}", p.unsmoothed_wmc(&fx.real).0.to_bits()),
+        Q::Fixed(1) => format!("{}", p.unsmoothed_wmc(&fx.ff1).value()),
+        Q::Fixed(2) => format!("{}", p.unsmoothed_wmc(&fx.ff2).value()),
+        Q::Fixed(3) => (0..(1usize << n)).map(|a| if p.evaluate(&tt::assignment_vec(a, n)) { '1' } else { '0' }).collect::<String>(),
+        Q::Fixed(4) => {
             let r = p.unsmoothed_wmc(&fx.eu);
             format!("{:?}/{:?}", r.0.to_bits(), r.1.to_bits())
         }
-        5 => format!("{}", p.count_nodes()),
-        6 => format!("{}", p.semantic_hash(&fx.hmap1).value()),
-        7 => format!("{}", p.cached_semantic_hash(b.order(), &fx.hmap).value()),
-        8 => {
+        Q::Fixed(5) => format!("{}", p.count_nodes()),
+        Q::Fixed(6) => format!("{}", p.semantic_hash(&fx.hmap1).value()),
+        Q::Fixed(7) => format!("{}", p.cached_semantic_hash(b.order(), &fx.hmap).value()),
+        Q::Fixed(8) => {
             let (v, m) = p.marginal_map(&vars, n, &fx.real);
             format!("{:?} {:?}", v.to_bits(), m)
         }
-        9 => {
+        Q::Fixed(9) => {
             let (v, m) = p.meu(&vars[..1], n, &fx.eu);
             format!("{:?}/{:?} {:?}", v.0.to_bits(), v.1.to_bits(), m)
         }
-        10 => {
+        Q::Fixed(10) => {
             let (v, m) = p.bb(&vars, n, &fx.real);
             format!("{:?} {:?}", v.0.to_bits(), m)
         }
-        11 => digest_bdd(b.smooth(p, n), n),
-        12 => digest_bdd(b.condition(p, VarLabel::new(1 % n as u64), true), n),
-        13 => {
-            let mut a: Vec<Option<bool>> = vec![None; n];
-            a[0] = Some(false);
-            a[n - 1] = Some(true);
-            digest_bdd(b.condition_model(p, &PartialModel::from_assignments(&a)), n)
-        }
-        14 => {
+        Q::Fixed(11) => digest_bdd(b.smooth(p, n), n),
+        Q::Fixed(_) => {
             let (v, m) = p.bb(&vars[..1], n, &fx.eu);
             format!("{:?}/{:?} {:?}", v.0.to_bits(), v.1.to_bits(), m)
         }
-        _ => digest_bdd(b.exists(p, VarLabel::new(0)), n),
+        Q::Cond(x, val) => digest_bdd(b.condition(p, VarLabel::new(*x as u64), *val), n),
+        Q::Exists(x) => digest_bdd(b.exists(p, VarLabel::new(*x as u64)), n),
+        Q::CondModel(m) => {
+            let mut a: Vec<Option<bool>> = vec![None; n];
+            match m {
+                0 => {
+                    a[0] = Some(false);
+                    a[n - 1] = Some(true);
+                }
+                1 => {
+                    a[n - 1] = Some(false);
+                }
+                _ => {
+                    for (i, x) in a.iter_mut().enumerate() {
+                        *x = Some(i % 2 == 0);
+                    }
+                }
+            }
+            digest_bdd(b.condition_model(p, &PartialModel::from_assignments(&a)), n)
+        }
     })
 }
 
 /// explore all query sequences of length <= depth over the BDD pool of (f, g)
-fn explore_bdd(f: TT, g: TT, n: usize, order: &[usize], depth: usize, rep: &mut Report) {
+fn explore_bdd(f: TT, g: TT, n: usize, order: &[usize], depth: usize, kind: u8, rep: &mut Report) {
     let fx = fixtures(n);
-    let nq = BDD_QUERIES.len();
+    let qs = bdd_queries(n);
+    let nq = qs.len();
     // reference answers: every (query, member) on a fresh copy in a fresh builder
-    let npool = 7;
+    let npool = match kind {
+        1 => 1,
+        2 => 3,
+        _ => 7,
+    };
     let mut reference: Vec<Vec<Result<String, String>>> = Vec::new();
     for q in 0..nq {
         let mut row = Vec::new();
         for m in 0..npool {
             let b = small_builder(order, 2);
-            let pool = bdd_pool(&b, f, g, n);
-            row.push(bdd_query(&b, pool[m], q, &fx));
+            let pool = bdd_pool(&b, f, g, n, kind);
+            row.push(bdd_query(&b, pool[m], &qs[q].1, &fx));
         }
         reference.push(row);
     }
     let case = |hist: &[(usize, usize)]| -> Value {
-        json!({"kind": "bdd_queries", "f": format!("{:#x}", f), "g": format!("{:#x}", g), "n": n, "order": order, "sequence": hist.iter().map(|(q, m)| json!([BDD_QUERIES[*q], m])).collect::<Vec<_>>()})
+        json!({"kind": "bdd_queries", "pool_kind": kind, "f": format!("{:#x}", f), "g": format!("{:#x}", g), "n": n, "order": order, "sequence": hist.iter().map(|(q, m)| json!([qs[*q].0, m])).collect::<Vec<_>>()})
     };
     // all sequences; each sequence runs in its own shared builder
     let mut seqs: Vec<Vec<(usize, usize)>> = vec![vec![]];
@@ -160,16 +206,16 @@ fn explore_bdd(f: TT, g: TT, n: usize, order: &[usize], depth: usize, rep: &mut 
         // execute the new sequences (prefixes were executed in the previous round)
         for s in next.iter() {
             let b = small_builder(order, 2);
-            let pool = bdd_pool(&b, f, g, n);
+            let pool = bdd_pool(&b, f, g, n, kind);
             rep.traces += 1;
             for (i, (q, m)) in s.iter().enumerate() {
-                let ans = bdd_query(&b, pool[*m], *q, &fx);
+                let ans = bdd_query(&b, pool[*m], &qs[*q].1, &fx);
                 rep.transitions += 1;
                 let want = &reference[*q][*m];
                 if ans != *want {
                     rep.violation(
                         "purity:answer-depends-on-history",
-                        format!("{} on pool member {} after {:?}: answer {:?}, on a freshly built copy {:?}", BDD_QUERIES[*q], m, &s[..i], ans, want),
+                        format!("{} on pool member {} after {:?}: answer {:?}, on a freshly built copy {:?}", qs[*q].0, m, &s[..i], ans, want),
                         case(s),
                     );
                     return;
@@ -177,7 +223,7 @@ fn explore_bdd(f: TT, g: TT, n: usize, order: &[usize], depth: usize, rep: &mut 
                 if !all_scratch_clear(&pool) {
                     rep.violation(
                         "purity:scratch-left",
-                        format!("after {} on pool member {} (history {:?}) some node reachable from the pool still holds scratch data", BDD_QUERIES[*q], m, &s[..i]),
+                        format!("after {} on pool member {} (history {:?}) some node reachable from the pool still holds scratch data", qs[*q].0, m, &s[..i]),
                         case(s),
                     );
                     return;
@@ -388,7 +434,7 @@ fn family(n: usize) -> Vec<(TT, TT)> {
 
 pub fn run(ctx: &Ctx) -> Report {
     let mut rep = Report::new(
-        "pools of node-sharing diagrams (f, not f, a sub-diagram of f, f and g, g, smooth(f), not f or g) built in one builder for a rule-defined family of function pairs (skipped levels, complemented roots, parity, thresholds), n in {3,4}; every sequence of <= d queries (d = 2 quick, 3 thorough for BDDs) over 16 BDD query kinds x 7 pool members, 8 SDD query kinds x 5 members, 7 decision-DNNF query kinds x 4 members; every answer must equal the answer on a freshly built copy in a fresh builder and every node reachable from the pool must have empty scratch after every call; a state is a distinct query sequence",
+        "pools of node-sharing diagrams (f, not f, a sub-diagram of f, f and g, g, smooth(f), not f or g) built in one builder for a rule-defined family of function pairs (skipped levels, complemented roots, parity, thresholds), n in {3,4}; every sequence of <= d queries (d = 2 quick, 3 thorough for BDDs) over the BDD query alphabet (13 fixed kinds + condition on every literal + exists on every variable + 3 partial models) x 7 pool members, plus every ordered pair of queries on EVERY function of 3 variables (every 16th of 4 in thorough) under every order, 8 SDD query kinds x 5 members, 7 decision-DNNF query kinds x 4 members; every answer must equal the answer on a freshly built copy in a fresh builder and every node reachable from the pool must have empty scratch after every call; a state is a distinct query sequence",
     );
     let depth = ctx.tier.pick(2, 3);
     let mut items: Vec<(u8, usize, TT, TT, Vec<usize>, VT)> = Vec::new();
@@ -407,11 +453,38 @@ pub fn run(ctx: &Ctx) -> Report {
             items.push((2, n, f, g, o2, VT::Leaf(0)));
         }
     }
+    // all functions of 3 variables (4 in thorough, every 16th) under every order: pool {f} (quick) /
+    // {f, not f, a sub-diagram} (thorough), every ordered pair of queries
+    for o in permutations(3) {
+        for start in 0..4u64 {
+            items.push((3, 3, start, 4, o.clone(), VT::Leaf(0)));
+        }
+    }
+    if ctx.tier == Tier::Thorough {
+        for o in permutations(4) {
+            for start in 0..4u64 {
+                items.push((3, 4, start * 4 + 1, 16, o.clone(), VT::Leaf(0)));
+            }
+        }
+    }
     let r = par_run(ctx, &items, |_, (kind, n, f, g, o, vt)| {
         let mut r = Report::default();
         r.exhaustive = true;
         match kind {
-            0 => explore_bdd(*f, *g, *n, o, depth, &mut r),
+            0 => explore_bdd(*f, *g, *n, o, depth, 0, &mut r),
+            3 => {
+                // every function of n variables, every ordered pair of queries
+                let total = 1u64 << (1u64 << *n);
+                let kind = if ctx.tier == Tier::Quick { 1 } else { 2 };
+                let mut t = *f;
+                while t < total {
+                    explore_bdd(t, 0, *n, o, 2, kind, &mut r);
+                    if r.n_violations > 4 {
+                        break;
+                    }
+                    t += *g;
+                }
+            }
             1 => explore_sdd(*f, *g, *n, vt, depth.min(3), &mut r),
             _ => explore_td(*f, *g, *n, o, depth.min(3), &mut r),
         }
@@ -438,7 +511,7 @@ pub fn replay(ctx: &Ctx, case: &Value) -> Report {
     let depth = case["sequence"].as_array().map(|a| a.len()).unwrap_or(2).max(1);
     let _ = ctx;
     match case["kind"].as_str() {
-        Some("bdd_queries") => explore_bdd(f, g, n, &arr(&case["order"]), depth, &mut rep),
+        Some("bdd_queries") => explore_bdd(f, g, n, &arr(&case["order"]), depth, case["pool_kind"].as_u64().unwrap_or(0) as u8, &mut rep),
         Some("sdd_queries") => explore_sdd(f, g, n, &VT::parse(case["vtree"].as_str().unwrap_or("0")).unwrap_or(VT::Leaf(0)), depth, &mut rep),
         Some("topdown_queries") => explore_td(f, g, n, &arr(&case["order"]), depth, &mut rep),
         _ => {}
